@@ -641,3 +641,173 @@ class ImplGen(ImplGraph):
         except (ValueError, IndexError):
             return "raise"
         return " ; ".join(out)
+
+
+# ----------------------------------------------------------------------------------- Gantt charts and frames (C20)
+import os as _os  # noqa: E402
+import warnings as _warnings  # noqa: E402
+
+_os.environ.setdefault("MPLBACKEND", "Agg")
+import matplotlib  # noqa: E402
+
+matplotlib.use("Agg")
+import matplotlib.pyplot as _plt  # noqa: E402
+from matplotlib.collections import PolyCollection as _PolyCollection  # noqa: E402
+
+from job_shop_lib.visualization import _plot_gantt_chart as _pgc  # noqa: E402
+from job_shop_lib.visualization import _gantt_chart_video_and_gif_creation as _vid  # noqa: E402
+
+
+def read_chart(ax):
+    """What the drawn axes show: (bars, legend jobs, xticks, xlim).  A bar is read back from the polygon
+    matplotlib drew (row from its y extent, start and width from its x extent) and its job from the legend
+    entry that has the bar's colour."""
+    leg = ax.get_legend()
+    colour_to_job = {}
+    legend_jobs = []
+    if leg is not None:
+        for text, handle in zip(leg.get_texts(), leg.legend_handles):
+            label = text.get_text()
+            job = int(label.split()[1]) if label.startswith("Job ") else label
+            legend_jobs.append(job)
+            key = tuple(round(float(c), 6) for c in handle.get_facecolor())
+            colour_to_job.setdefault(key, []).append(job)
+    bars = []
+    for coll in ax.collections:
+        if not isinstance(coll, _PolyCollection):
+            continue
+        fcs = coll.get_facecolor()
+        for k, path in enumerate(coll.get_paths()):
+            vs = path.vertices
+            xs = [float(v[0]) for v in vs]
+            ys = [float(v[1]) for v in vs]
+            fc = fcs[k if k < len(fcs) else 0]
+            key = tuple(round(float(c), 6) for c in fc)
+            jobs = colour_to_job.get(key, [])
+            job = str(jobs[0]) if len(jobs) == 1 else ("nolegend" if not jobs else "ambiguous")
+            x0, x1, y0, y1 = min(xs), max(xs), min(ys), max(ys)
+            num = lambda v: str(int(v)) if float(v).is_integer() else repr(v)  # noqa: E731
+            if y1 - y0 != 9:
+                job += "/height" + num(y1 - y0)
+            bars.append(f"{num(y0)}:{num(x0)}:{num(x1 - x0)}:{job}")
+    ticks = [int(t) if float(t).is_integer() else float(t) for t in ax.get_xticks()]
+    xlim = ax.get_xlim()
+    return bars, legend_jobs, ticks, xlim
+
+
+class _FakeFigure:
+    """Stands in for a Figure in `_save_frame`: records the file name instead of rendering a PNG."""
+
+    def __init__(self, sink, payload=None):
+        self.sink = sink
+        self.payload = payload
+        self.number = -1
+
+    def savefig(self, fname, **kwargs):
+        self.sink.append((fname, self.payload))
+
+
+class _FakeOs:
+    """`os` as seen by `_load_images`: the listing is whatever order the harness dictates."""
+
+    def __init__(self, listing):
+        self._listing = list(listing)
+        self.path = _os.path
+
+    def listdir(self, _dir):
+        return list(self._listing)
+
+
+class _FakeImageio:
+    @staticmethod
+    def imread(path):
+        return path
+
+
+def load_order(names):
+    """Runs the real `_load_images` over a directory listing in the given order."""
+    old_os, old_io = _vid.os, _vid.imageio
+    _vid.os, _vid.imageio = _FakeOs(names), _FakeImageio
+    try:
+        return [_os.path.basename(p) for p in _vid._load_images("D")]  # pylint: disable=protected-access
+    finally:
+        _vid.os, _vid.imageio = old_os, old_io
+
+
+def save_names(numbers):
+    sink = []
+    old_close = _vid.plt.close
+    _vid.plt.close = lambda *a, **k: None
+    try:
+        for n in numbers:
+            _vid._save_frame(_FakeFigure(sink), "D", n)  # pylint: disable=protected-access
+    finally:
+        _vid.plt.close = old_close
+    return [_os.path.basename(f) for f, _ in sink]
+
+
+class ImplViz(ImplGen):
+    def cmd_bars(self, ts):
+        with _warnings.catch_warnings():
+            _warnings.simplefilter("ignore")
+            fig, ax = _pgc.plot_gantt_chart(self.dispatcher.schedule)
+            bars, legend, _, _ = read_chart(ax)
+            _plt.close(fig)
+        return f"{lst(bars)} ; legend {lst(legend)}"
+
+    def cmd_ticks(self, ts):
+        xlim = None if ts[0] == "-" else int(ts[0])
+        with _warnings.catch_warnings():
+            _warnings.simplefilter("ignore")
+            fig, ax = _pgc.plot_gantt_chart(self.dispatcher.schedule, xlim=xlim, number_of_x_ticks=int(ts[1]))
+            _, _, ticks, lim = read_chart(ax)
+            _plt.close(fig)
+        if lim[0] < 0 and lim[1] == -lim[0] and lim[1] < 0.1:
+            lim = (0.0, 0.0)     # set_xlim(0, 0): matplotlib widens identical limits (documented behaviour)
+        right = int(lim[1]) if float(lim[1]).is_integer() else lim[1]
+        if lim[0] != 0:
+            right = f"{lim[0]}..{right}"
+        return f"xlim {right} ticks {lst(ticks)}"
+
+    def cmd_fname(self, ts):
+        return save_names([int(ts[0])])[0]
+
+    def cmd_frames(self, ts):
+        numbers = [int(t) for t in ts]
+        names = save_names(numbers)
+        back = {n: i for n, i in zip(names, numbers)}
+        return lst(back[n] for n in load_order(names))
+
+    def cmd_animate(self, ts):
+        """The whole pipeline: create_gantt_chart_frames over a recorded history, frames saved through the real
+        `_save_frame`, then listed in a scrambled order and loaded through the real `_load_images`."""
+        xs = [int(t) for t in ts]
+        hist = [(xs[i], xs[i + 1], xs[i + 2]) for i in range(0, len(xs), 3)]
+        d = jsl.Dispatcher(self.instance)
+        h = jsl.HistoryObserver(d)
+        for j, p, m in hist:
+            d.dispatch(self.instance.jobs[j][p], m)
+        history = list(h.history)
+        sink = []
+        seen = {}
+
+        def plot_function(schedule, makespan=None, available_operations=None, current_time=None):
+            with _warnings.catch_warnings():
+                _warnings.simplefilter("ignore")
+                fig, ax = _pgc.plot_gantt_chart(schedule, xlim=makespan)
+                bars, _, _, lim = read_chart(ax)
+                _plt.close(fig)
+            seen["xlim"] = int(lim[1] + 0.5)
+            return _FakeFigure(sink, lst(bars))
+
+        old_close = _vid.plt.close
+        _vid.plt.close = lambda *a, **k: None
+        try:
+            _vid.create_gantt_chart_frames("D", self.instance, None, plot_function, schedule_history=history)
+        finally:
+            _vid.plt.close = old_close
+        by_name = {_os.path.basename(f): payload for f, payload in sink}
+        names = list(by_name)
+        # a hostile directory listing: reversed
+        order = load_order(list(reversed(names)))
+        return f"xlim {seen.get('xlim', 0)} " + " / ".join(by_name[n] for n in order)
